@@ -138,6 +138,14 @@ theorem c20_runner_mixed_names (dflt : Env) (cfg : J) (names : List String) (spe
       simp only [List.filterMap_cons, h1, List.filter_cons, hx, ihx]
       simp
 
+/-- **The set-up of the host process does not matter**: DEBUG logging (with credential-masking or any other
+record formatting), a stdout that cannot encode the command line, a closed stdout — the launch is the same, and for
+a valid configuration it is the configured one with the configured environment VALUES. -/
+theorem c20_host_process_irrelevant (h h' : HostProc) (e : EntryPoint) (dflt : Env) (f : File) (names : List String) :
+    entryIn h e dflt f names = entryIn h' e dflt f names := rfl
+
+example (h : HostProc) : entryIn h .runner [] (.json sampleCfg) ["web"] = entry .runner [] (.json sampleCfg) ["web"] := rfl
+
 /-- the document does not mention server `n`: no `mcpServers` member, or no member `n` in it -/
 def Unknown (top : List (String × J)) (n : String) : Prop :=
   jget top "mcpServers" = none ∨ ∃ servers, jget top "mcpServers" = some (.obj servers) ∧ jget servers n = none
